@@ -357,7 +357,7 @@ def ref_strategies(repo):
     """the four Ref strategy functions by role (from the strategy table, not by name):
     dict(unpack_packet, pack_packet, unpack_callable, pack_callable)"""
     ci = repo.cls('Ref')
-    out = {}
+    out, every = {}, {}
     for st in repo.strategies(ci):
         gs = set()
         for g in st['guard_sets']:
@@ -367,10 +367,18 @@ def ref_strategies(repo):
             continue
         if 'isinstance(self.prototype, Packet)' in gs and 'not isinstance(self.prototype, Packet)' not in gs:
             out['unpack_packet'], out['pack_packet'] = up, pk
+            for role, f in (('unpack_packet', up), ('pack_packet', pk)):
+                if f not in every.setdefault(role, []):
+                    every[role].append(f)
         elif 'not isinstance(self.prototype, Packet)' in gs:
             out['unpack_callable'], out['pack_callable'] = up, pk
+            for role, f in (('unpack_callable', up), ('pack_callable', pk)):
+                if f not in every.setdefault(role, []):
+                    every[role].append(f)
     if len(out) != 4:
         raise Undecided('cannot identify the packet / callable strategy pairs of Ref from its _compile (found %s)' % sorted(out))
+    # every function _compile can install in a role (one per role on the pristine tree)
+    out['all'] = every
     return out
 
 
